@@ -74,10 +74,16 @@ def options(rng, tier, compress=None, zoom_mode=None):
     comp = rng.choice([0, 0, 1]) if compress is None else compress
     ips = rng.choice([1, 2, 3, 7, 1024])
     bs = rng.choice([2, 3, 4, 5, 256])
-    zm = zoom_mode or rng.choice(["auto", "auto-small", "manual", "manual-odd", "none"])
+    zm = zoom_mode or rng.choice(["auto", "auto-small", "manual", "manual-odd", "none"] * 3 + ["auto-many", "manual-many"])
     izoom, maxz, manual = 160, 10, []
     if zm == "auto-small":
         izoom, maxz = rng.choice([1, 2, 5, 10]), rng.choice([1, 3, 10])
+    elif zm == "auto-many":
+        # more levels asked for than the zoom directory has room for (MAX_ZOOM_LEVELS)
+        izoom, maxz = rng.choice([1, 2, 3]), rng.choice([11, 12, 13, 16])
+    elif zm == "manual-many":
+        manual = [rng.sample([4, 6, 8, 10, 12, 14, 16, 20, 24, 28, 32, 40, 48, 56, 64, 80, 96, 128], rng.choice([11, 12, 13, 15]))]
+        maxz = rng.choice([10, 13, 20])
     elif zm == "manual":
         manual = [sorted(rng.sample([1, 2, 3, 5, 10, 16, 40, 100, 1000, 100000], rng.choice([1, 2, 3])))]
     elif zm == "manual-odd":
